@@ -16,17 +16,21 @@ T(t, x) == N(t, S(x), <<>>)
 LF == <<10>>
 Strings == { Str(S(x)) : x \in { "NULL", "null", "True", "FALSE", "END", "end", "End_Group", "GROUP", "object", "BEGIN_OBJECT",
                                  "1", "-1", "+1", "1e5", "inf", "nan", "1_0", "2#101#", "16#FF#", "2001-01-01", "2001-366", "12:00", "12:00:60",
-                                 "12:00+01", "a", "a_b", "a-b", "N/A", "a:b", "^P", "x+y", "a b", " a", "a ", "a  b", "it's", "say \"x\"",
+                                 "12:00+01", "12:00-01", "2001-01-01T12:00-05:30", "a", "a_b", "a-b", "N/A", "a:b", "^P", "x+y", "a b", " a", "a ", "a  b", "it's", "say \"x\"",
                                  "a=b", "a,b", "(a)", "{a}", "<m>", "a;b", "a&b", "/* c */", "a/*b", "*/", "# c", "a#b", "x-", "-" } }
            \cup { Str(<<>>), Str(S("a") \o <<9>> \o S("b")), Str(S("a") \o LF \o S("b")), Str(S("a") \o <<13, 10>> \o S("b")),
                   Str(S("a-") \o LF \o S("b")), Str(S("x") \o <<11>> \o S("y")), Str(S("both ' and \"")), Str(<<1>>), Str(<<233>>), Str(<<176, 67>>), Str(<<8364>>),
                   Str(S("word word word word word word word word word word word word word word word word word word word word")),
+                  Str(S("aaa- bbb- ccc- ddd- eee- fff- ggg- hhh- iii- jjj- kkk- lll- mmm- nnn- ooo- ppp- qqq- rrr- sss- ttt- uuu- vvv- www- xxx")),
+                  Str(S("a - b - c - d - e - f - g - h - i - j - k - l - m - n - o - p - q - r - s - t - u - v - w - x - y - z - a - b - c - d - e")),
+                  Str(S("cross-track along-track cross-track along-track cross-track along-track cross-track along-track cross-track")),
+                  Str(S("two  spaces  between  words  in  a  long  string  that  must  be  wrapped  somewhere  around  here  or  there")),
                   Str(S("Aaaaaaaaaaaaaaaaaaaaaaaaaaaaaaaaaaaaaaaaaaaaaaaaaaaaaaaaaaaaaaaaaaaaaaaaaaaaaaaaaaaaaaaaaaaaaaaaaaaaaaaaaaaaaaa")) }
 Atoms == { N("null", <<>>, <<>>), N("bool", S("true"), <<>>), N("bool", S("false"), <<>>),
            IntV("0"), IntV("-5"), IntV("9223372036854775808123"), RealV("-0.0"), RealV("1e+300"), RealV("1e-07"), RealV("0.1"), RealV("1.2345678901234567"), RealV("1500.0"),
            T("date", "2001-01-01"), T("date", "0001-01-01"), T("date", "0999-12-31"), T("date", "9999-12-31"),
            T("time", "12:00:00.000000|naive"), T("time", "12:00:00.000000|utc"), T("time", "23:59:59.999999|utc"), T("time", "01:02:03.005000|utc"),
-           T("time", "01:02:03.000005|utc"), T("time", "12:00:00.000000|off+60"), T("time", "12:00:00.500000|off-330"),
+           T("time", "01:02:03.000005|utc"), T("time", "12:00:00.000000|off+60"), T("time", "12:00:00.500000|off-330"), T("time", "12:00:00.000000|off+780"), T("time", "12:00:00.000000|off-210"),
            T("datetime", "2001-01-01T12:00:00.000000|naive"), T("datetime", "2001-01-01T00:00:00.000000|utc"), T("datetime", "0999-12-31T23:59:59.123000|utc"),
            T("datetime", "2001-01-01T12:00:00.000000|off+330"), T("datetime", "2001-01-01T12:00:00.000000|off-60") }
 Qty(v, u) == N("qty", S(u), <<v>>)
@@ -58,6 +62,9 @@ Special == { Mod(<<Item("a", One), Item("a", IntV("2")), Item("A", IntV("3"))>>)
              Mod(<<Item("ns:key", One), Item("^ptr", Qty(IntV("5"), "BYTES")), Item("a-b", One), Item("x.y", One), Item("lower", Wa)>>),
              Mod(<<Item("a_key_of_exactly_thirty_chars_", One), Item("a_key_of_thirty_one_characters_", One)>>),
              Mod(<<Item("o", Obj(<<Item("p", Obj(<<Item("q", Obj(<<Item("deep", Ws)>>))>>))>>))>>),
+             Mod(<<Item("g-", Grp(<<Item("x", One)>>)), Item("o", Obj(<<Item("y", One)>>))>>),
+             Mod(<<Item("k-", One), Item("k2", One)>>),
+             Mod(<<Item("s", SeqV([i \in 1..9 |-> Str(S("cross-track along-track"))]))>>),
              Mod(<<>>), Mod(<<Item("empty_group", Grp(<<>>))>>) }
 Modules == UNION { Shapes(v) : v \in Values } \cup Special
 
